@@ -1,4 +1,5 @@
 import FsDb.Model.VFile
+import FsDb.Model.Codec
 /-!
   Line-protocol driver: one operation per line on stdin, one answer per line on stdout.
   Imports model/spec modules only (core Lean) so that it links as an executable.
@@ -39,9 +40,36 @@ def stepVF (f : VFile) (args : List String) : VFile × String :=
   | ["dump"] => (f, showSeqs f.l ++ " " ++ (if f.ws then "-" else showSeqs f.arr))
   | _ => (f, "bad-op")
 
+def hexOf (bs : Codec.Bytes) : String := String.ofList (Codec.fmtBytes bs)
+
+def unhex (s : String) : Option Codec.Bytes := if s == "-" then some [] else Codec.parseHex s.toList
+
+def hexOrDash (bs : Codec.Bytes) : String := if bs.isEmpty then "-" else hexOf bs
+
+/-- C19 sub-protocol (`enc …`, `dec …`). -/
+def stepCodec (args : List String) : String :=
+  match args with
+  | ["enc", seq, tx, cid, key] =>
+    match seq.toNat?, unhex tx, unhex cid, unhex key with
+    | some n, some t, some c, some k =>
+      match Codec.repoSet ⟨n, t, c, k⟩ with
+      | some (bk, v) => String.ofList bk ++ " " ++ hexOf v
+      | none => "err"
+    | _, _, _, _ => "bad-op"
+  | ["dec", hex] =>
+    match unhex hex with
+    | some bs =>
+      match Codec.decode bs with
+      | some r => s!"{r.seq} {String.ofList (Codec.formatUuid r.tx)} {String.ofList (Codec.formatUuid r.cid)} {hexOrDash r.key}"
+      | none => "err"
+    | none => "bad-op"
+  | _ => "bad-op"
+
 def step (st : St) (line : String) : St × String :=
   match (line.trimAscii.toString.splitOn " ").filter (· ≠ "") with
   | "vf" :: args => let r := stepVF st.vf args; ({ st with vf := r.1 }, r.2)
+  | "enc" :: args => (st, stepCodec ("enc" :: args))
+  | "dec" :: args => (st, stepCodec ("dec" :: args))
   | [] => (st, "")
   | _ => (st, "bad-op")
 
